@@ -295,7 +295,9 @@ Print Assumptions C19_callee_sees_callers_inputs.
    (its keyword list lacks it), and a function called inside then reads the shadowing record:
    `f = () => [#k, inputs.k]` gives [5, 5] inside `do { inputs = {k: 5}; return f() }` and [1, 1]
    outside.  `#k = inputs.k` holds at both program points (C19 is not violated); what differs
-   between the call sites is C04's subject. *)
+   between the call sites is C04's subject.
+   (F9 repaired: `f` captured `inputs` at creation — `#k` and `inputs.k` both make `inputs` a free name
+   of the body — so the captured record now outranks the call site's: [1, 1] at BOTH call sites.) *)
 Definition f9_prog : list stmt :=
   [SExpr (EAssign "f" (ELam [] (EList [Cm [] (EInRef "k") None; Cm [] (EDot (EId "inputs") "k") None])));
    SOut (EAssign "a" (EDo [Cm [] (EAssign "inputs" (ERec [Cm [] (REntry (KStatic "k") (n 5)) None])) None]
@@ -303,5 +305,5 @@ Definition f9_prog : list stmt :=
    SOut (EAssign "b" (ECall (EId "f") []))].
 Example C19_f9_do_block_shadows_inputs :
   show_cli (cli_run eval_release MInline false None [IObj [("k", SNum (num_of_Z 1))]] (Some f9_prog))
-  = "EXIT:0;OUT:{61:L[N4014000000000000,N4014000000000000],62:L[N3ff0000000000000,N3ff0000000000000]};FILE:-".
+  = "EXIT:0;OUT:{61:L[N3ff0000000000000,N3ff0000000000000],62:L[N3ff0000000000000,N3ff0000000000000]};FILE:-".
 Proof. vm_compute. reflexivity. Qed.
